@@ -718,35 +718,50 @@ def random_payload(rng):
     return cc.gen_value(rng, 2)
 
 
+def depth_of(ctx):
+    """quick / drift (quick tier after a fingerprint drift or a broken obligation: must stay
+    within ~90 s) / thorough"""
+    if ctx.tier == 'thorough':
+        return 'thorough'
+    return 'drift' if ctx.deep else 'quick'
+
+
+SCALE = {
+    #            laws  grid values/member  random payloads  round trips  histories
+    'quick':    (400,  QUICK_N,            4000,            3000,        600),
+    'drift':    (1000, 5,                  12000,           8000,        2000),
+    'thorough': (3000, None,               60000,           40000,       12000),
+}
+
+
 def run(ctx):
     res = Results()
     rng = ctx.rng
+    nlaws, npm, nrand, nrt, nhist = SCALE[depth_of(ctx)]
     # (a) corpus first
     cdec, crts = load_corpus(ctx.verif)
     evaluate_decode(ctx, res, cdec, 'corpus')
     evaluate_roundtrips(ctx, res, crts, 'corpus')
     res['scopes']['corpus'] = len(cdec) + len(crts)
     # (b) laws + wire self-test
-    check_laws(ctx, res, rng, 3000 if ctx.deep else 400)
+    check_laws(ctx, res, rng, nlaws)
     # (c) exhaustive structural variants
-    npm = None if ctx.deep else QUICK_N
     cases = [(pn, p) for p in grid_payloads(npm) for pn in cc.PROTO_NAMES]
     evaluate_decode(ctx, res, cases, 'grid')
     res['scopes']['grid'] = {'values_per_member': {m: (len(GRID[m]) if npm is None else min(npm, len(GRID[m])))
                                                    for m in MEMBERS},
                              'payloads': grid_size(npm), 'protocols': list(cc.PROTO_NAMES)}
     # (d) random payloads
-    nrand = 60000 if ctx.deep else 4000
     cases = [(rng.choice(cc.PROTO_NAMES), random_payload(rng)) for _ in range(nrand)]
     evaluate_decode(ctx, res, cases, 'random-payload')
     res['scopes']['random_payloads'] = nrand
     # (e) round trips
-    nrt = 40000 if ctx.deep else 3000
     rts = [gen_rt(rng) for _ in range(nrt)]
     evaluate_roundtrips(ctx, res, rts, 'roundtrip')
     res['scopes']['roundtrips'] = nrt
     for rt in rts[:3]:
         res.sample(rt.case())
+    res['scopes']['depth'] = depth_of(ctx)
     return res.finish(RULE, exhaustive=True)
 
 
